@@ -1010,6 +1010,19 @@ impl<'a> Ctx<'a> {
       return Err(format!("unsupported qualified call {}", quote::quote!(#fp)));
     }
 
+    // T::try_from_box_bytes(x) for `T: sealed::FromBoxBytes + ?Sized`: the impl for T (sized) or for [T]
+    if fp.qself.is_none() && fp.path.segments.len() == 2 && lname == "try_from_box_bytes" && args.len() == 1 {
+      let tn = fp.path.segments[0].ident.to_string();
+      if self.generics.iter().any(|g| g.name == tn && g.maybe_unsized) {
+        let x = self.expr(args[0], Some(&Ty::BoxBytes))?;
+        if x.ty != Ty::BoxBytes { return Err("try_from_box_bytes of something that is not a BoxBytes".into()); }
+        for c in ["try_from_box_bytes_sized", "try_from_box_bytes_slice"] { self.callees.push(c.into()); }
+        let ty = Ty::Result(Box::new(Ty::Box_(Box::new(Ty::Param(tn.clone())))), Box::new(Ty::Tuple(vec![Ty::PErr, Ty::BoxBytes])));
+        let (code, _) = self.seq(vec![x], |n| (format!(
+          "(if unsized_{t} then try_from_box_bytes_slice ENV {t} {x} else try_from_box_bytes_sized ENV {t} {x})", t = tn, x = n[0]), false));
+        return Ok(Tr::eff(code, ty));
+      }
+    }
     match (full.as_str(), lname.as_str()) {
       (_, "size_of") if args.is_empty() && turbofish.len() == 1 => {
         return crate::tables::size_of(self, &turbofish[0]);
@@ -1213,6 +1226,16 @@ impl<'a> Ctx<'a> {
         }
       } else {
         gterms.push(self.tyterm(t)?);
+      }
+    }
+    // `?Sized` parameters of the callee: the flag of the caller's parameter it is instantiated with
+    for g in &sig.generics {
+      if g.maybe_unsized {
+        match &s[&g.name] {
+          Ty::Param(n) if self.generics.iter().any(|c| &c.name == n && c.maybe_unsized) => gterms.push(format!("unsized_{}", n)),
+          Ty::SliceOf(_) | Ty::Str => return Err(format!("{} instantiated with an unsized type", full)),
+          _ => gterms.push("false".into()),
+        }
       }
     }
     let ret = subst(&sig.ret, &s);
